@@ -460,4 +460,26 @@ def overlay {α : Type} (I : Interp α) (ρ : Env α) (m : PMap) : Env α :=
     | some v => v.eval I ρ
     | none => ρ y
 
+/-! ### eval_expr (internals/expr/eval.py): binding the data arrays to the symbols
+
+  `eval_expr(expr, n, datamap)` orders the free symbols, fetches `datamap[symbol]` for each and
+  calls the compiled function with the arrays in that order.  Its contract: the value at a record
+  is `eval` of the expression under the environment that binds EACH symbol to ITS column — binding
+  by name; the order chosen for the argument list is an implementation detail. -/
+
+/-- First value paired with `y`. -/
+def assocGet {α : Type} : List (Sym × α) → Sym → Option α
+  | [], _ => none
+  | (k, v) :: l, y => if y = k then some v else assocGet l y
+
+/-- The environment an argument list denotes: symbol `i` is bound to value `i`. -/
+def bindEnv {α : Type} (pairs : List (Sym × α)) (dflt : Env α) : Env α :=
+  fun y => match assocGet pairs y with
+    | some v => v
+    | none => dflt y
+
+/-- Value of the compiled function at one record: `fn(*data)` with `data[i] = datamap[symbols[i]]`. -/
+def evalRow {α : Type} (I : Interp α) (e : Expr) (symbols : List Sym) (data : List α) (dflt : Env α) : α :=
+  e.eval I (bindEnv (symbols.zip data) dflt)
+
 end Pharmpy.C07
